@@ -11,20 +11,41 @@
 //   P b lo hi    b(range, pre_scan_tag)
 //   F b lo hi ok len   b(range, final_scan_tag); ok = b's value before the call was exactly [0..lo), len its length
 //   A b a        b.assign(a)
+//   E b lo hi    end of the body call b(range [lo,hi)) (only logged when re-entrant bodies are on)
 // every event is followed by the id of the thread that logged it.
+//
+// RE-ENTRANT BODIES (optional trailing token `re=<mode>` of reduce / det / scan, mode >= 1):  the Range's split
+// constructor — which the algorithms run just BEFORE they spawn the right child — may run an empty task in a global
+// tbb::task_group (so that task lies BELOW the right child in the owner's deque), and leaf bodies call
+// task_group::wait() inside operator(): the wait's dispatch loop pops the owner's deque from the top, i.e. it runs the
+// sibling right children NESTED inside the left leaf's body call, on the same thread (not stolen), while the left
+// sibling is unfinished.  Works with one thread, fully deterministic.  No isolation is used (isolation would hide
+// the right children from the nested wait).  mode-1 = where + 3*kind + 6*s:  where 0/1/2 = wait before / in the
+// middle of / after the body's own work;  kind 1 = additionally a nested parallel_for before the wait;
+// s+1 = every (s+1)-th split (seed-hashed) runs a task_group task.
+//
+// FORCED STEAL (`fsteal`): the arena's only worker is parked in an enqueued task until the main thread has finished
+// the whole left half and written m_left_sum; then it steals the root's right child (a REAL steal after the left
+// sibling completed — the case in which `is_stolen(ed)` alone decides).
 #include <oneapi/tbb/parallel_reduce.h>
 #include <oneapi/tbb/parallel_scan.h>
 #include <oneapi/tbb/parallel_sort.h>
 #include <oneapi/tbb/blocked_range.h>
 #include <oneapi/tbb/global_control.h>
 #include <oneapi/tbb/task_arena.h>
+#include <oneapi/tbb/task_group.h>
+#include <oneapi/tbb/parallel_for.h>
 #include <algorithm>
 #include <atomic>
+#include <chrono>
 #include <cstdio>
+#include <cstdlib>
+#include <unistd.h>
 #include <iostream>
 #include <memory>
 #include <sstream>
 #include <string>
+#include <thread>
 #include <vector>
 
 struct Ev { char k; long a, b, c, d; int tid; };
@@ -53,16 +74,80 @@ static void perturb(long pos) {
     for (volatile unsigned long i = 0; i < spins * 50; ++i) {}
 }
 
+// ---- re-entrant bodies -------------------------------------------------------------------------
+struct Reenter { int on = 0, where = 0, kind = 0; unsigned smod = 1; };
+static Reenter g_re;
+static tbb::task_group* g_tg = nullptr;
+static bool set_reenter(std::istringstream& in) {
+    g_re = Reenter();
+    std::string w;
+    if (!(in >> w)) return true;
+    if (w.rfind("re=", 0) != 0) return false;
+    int mode = 0;
+    try { mode = std::stoi(w.substr(3)); } catch (...) { return false; }
+    if (mode < 0 || mode > 18) return false;
+    if (mode > 0) { int m = mode - 1; g_re.on = 1; g_re.where = m % 3; g_re.kind = (m / 3) % 2; g_re.smod = (unsigned)((m / 6) % 3 + 1); }
+    return true;
+}
+// called from the Range's split constructor, i.e. before the algorithm spawns the new right child
+static void re_split_hook(long lo, long hi) {
+    if (g_re.on && g_tg && mix(g_seed * 31 + (unsigned long)lo * 1000003UL + (unsigned long)hi) % g_re.smod == 0) g_tg->run([] {});
+}
+// called from inside a leaf body: re-enter the scheduler
+static void re_wait(int where) {
+    if (!g_re.on || g_re.where != where || !g_tg) return;
+    if (g_re.kind == 1) tbb::parallel_for(0, 4, [](int) { for (volatile int i = 0; i < 2000; ++i) {} });
+    g_tg->wait();
+}
+template <class F> static void with_reentry(F f) {
+    if (!g_re.on) { f(); return; }
+    tbb::task_group tg;
+    g_tg = &tg;
+    f();
+    tg.wait();
+    g_tg = nullptr;
+}
+
+// ---- forced steal -------------------------------------------------------------------------------
+struct FSteal {
+    std::atomic<int> armed{0}, leaf_done{0}, go{0}, right_started{0}, blocker_running{0}, fired{0}, timed_out{0};
+    long mid = 0, hi = 0; int main_tid = -1; long timeout_ms = 300;
+};
+static FSteal g_fs;
+template <class Cond> static bool spin_until(Cond c, long ms) {
+    auto t0 = std::chrono::steady_clock::now();
+    while (!c()) {
+        if (std::chrono::steady_clock::now() - t0 > std::chrono::milliseconds(ms)) return false;
+        std::this_thread::yield();
+    }
+    return true;
+}
+
 // a Range that reports its splits (public Range concept only; midpoint split like blocked_range)
 struct LRange {
     long b, e, g;
     LRange(long b_, long e_, long g_) : b(b_), e(e_), g(g_) {}
+    LRange(const LRange&) = default;
     bool empty() const { return !(b < e); }
-    bool is_divisible() const { if (g_log_div) logev('D', b, e); return g < e - b; }
+    bool is_divisible() const {
+        if (g_log_div) logev('D', b, e);
+        if (g_fs.armed.load(std::memory_order_relaxed) && b == g_fs.mid && e == g_fs.hi) g_fs.right_started = 1;
+        return g < e - b;
+    }
     LRange(LRange& r, tbb::split) : b(0), e(r.e), g(r.g) {
         long m = r.b + (r.e - r.b) / 2;
         logev('X', r.b, m, r.e);
+        re_split_hook(r.b, r.e);
         r.e = m; b = m;
+    }
+    ~LRange() {
+        // forced steal: this is the range of the start_scan task that has just run the rightmost leaf of the left
+        // half and stored m_left_sum; the right half is still in this thread's deque
+        if (g_fs.armed.load(std::memory_order_relaxed) && e == g_fs.mid && g_fs.leaf_done.load() && tid() == g_fs.main_tid &&
+            !g_fs.fired.exchange(1)) {
+            g_fs.go = 1;
+            if (!spin_until([] { return g_fs.right_started.load() != 0; }, g_fs.timeout_ms)) g_fs.timed_out = 1;
+        }
     }
     long begin() const { return b; }
     long end() const { return e; }
@@ -107,9 +192,15 @@ struct RBody {
     RBody() : id(0) {}
     RBody(RBody& o, tbb::split) { id = logev('S', 0, o.id) + 1; }
     template <class Range> void operator()(const Range& r) {
-        logev('R', id, (long)r.begin(), (long)r.end());
-        perturb((long)r.begin());
-        for (long i = (long)r.begin(); i < (long)r.end(); ++i) val.push_back(i);
+        long lo = (long)r.begin(), hi = (long)r.end(), m = lo + (hi - lo) / 2;
+        logev('R', id, lo, hi);
+        perturb(lo);
+        re_wait(0);
+        for (long i = lo; i < m; ++i) val.push_back(i);
+        re_wait(1);
+        for (long i = m; i < hi; ++i) val.push_back(i);
+        re_wait(2);
+        if (g_re.on) logev('E', id, lo, hi);
     }
     void join(RBody& rhs) {
         logev('J', id, rhs.id);
@@ -126,11 +217,11 @@ template <class F> static void in_arena(int threads, F f) {
 // reduce <range: L|B> <part: simple|auto|static|affinity> <n> <grain> <threads> <seed> <delay>
 static void do_reduce(std::istringstream& in) {
     std::string rk, part; long n, grain; int threads;
-    if (!(in >> rk >> part >> n >> grain >> threads >> g_seed >> g_delay) || grain < 1 || threads < 1 || n < 0) { std::puts("bad-op"); return; }
+    if (!(in >> rk >> part >> n >> grain >> threads >> g_seed >> g_delay) || grain < 1 || threads < 1 || n < 0 || !set_reenter(in)) { std::puts("bad-op"); return; }
     reset_log(); g_log_div = false;
     RBody body;
     bool ok = true;
-    in_arena(threads, [&] {
+    in_arena(threads, [&] { with_reentry([&] {
         if (rk == "L") {
             LRange r(0, n, grain);
             if (part == "simple") tbb::parallel_reduce(r, body, tbb::simple_partitioner());
@@ -146,7 +237,8 @@ static void do_reduce(std::istringstream& in) {
             else if (part == "affinity") { tbb::affinity_partitioner ap; tbb::parallel_reduce(r, body, ap); }
             else ok = false;
         } else ok = false;
-    });
+    }); });
+    g_re = Reenter();
     if (!ok) { std::puts("bad-op"); return; }
     std::printf("value=%s", runs_of(body.val).c_str());
     print_log();
@@ -159,10 +251,13 @@ struct DBody {
     std::string v;
     DBody() {}
     DBody(DBody&, tbb::split) {}
-    void operator()(const tbb::blocked_range<long>& r) {
+    template <class Range> void operator()(const Range& r) {
         perturb(r.begin());
+        re_wait(0);
         std::string leaf = "[" + std::to_string(r.begin()) + "," + std::to_string(r.end()) + ")";
+        re_wait(1);
         v = v.empty() ? leaf : "(R " + v + " " + std::to_string(r.begin()) + " " + std::to_string(r.end()) + ")";
+        re_wait(2);
     }
     void join(DBody& o) { v = "(" + (v.empty() ? std::string("I") : v) + " " + (o.v.empty() ? std::string("I") : o.v) + ")"; }
 };
@@ -170,10 +265,22 @@ struct DBody {
 // det <part: simple|static> <n> <grain> <threads> <seed> <delay>
 static void do_det(std::istringstream& in) {
     std::string part; long n, grain; int threads;
-    if (!(in >> part >> n >> grain >> threads >> g_seed >> g_delay) || grain < 1 || threads < 1 || n < 0) { std::puts("bad-op"); return; }
+    if (!(in >> part >> n >> grain >> threads >> g_seed >> g_delay) || grain < 1 || threads < 1 || n < 0 || !set_reenter(in)) { std::puts("bad-op"); return; }
     DBody body;
     size_t divisor = 0;
     bool ok = true;
+    reset_log(); g_log_div = false;
+    if (g_re.on) {
+        // re-entrant bodies need the split hook of LRange (same midpoint split / divisibility as blocked_range)
+        if (part != "simple") { g_re = Reenter(); std::puts("bad-op"); return; }
+        in_arena(threads, [&] { with_reentry([&] {
+            LRange r(0, n, grain);
+            tbb::parallel_deterministic_reduce(r, body, tbb::simple_partitioner());
+        }); });
+        g_re = Reenter();
+        std::printf("divisor=%zu term=%s\n", divisor, body.v.empty() ? "I" : body.v.c_str());
+        return;
+    }
     in_arena(threads, [&] {
         tbb::blocked_range<long> r(0, n, (size_t)grain);
         if (part == "simple") tbb::parallel_deterministic_reduce(r, body, tbb::simple_partitioner());
@@ -201,15 +308,26 @@ struct SBody {
         for (long i = 0; i < lo; ++i) if (v[i] != i) return false;
         return true;
     }
+    void work(long lo, long hi) {
+        long m = lo + (hi - lo) / 2;
+        if (g_fs.armed.load(std::memory_order_relaxed) && lo == g_fs.mid) g_fs.right_started = 1;
+        re_wait(0);
+        for (long i = lo; i < m; ++i) val.push_back(i);
+        re_wait(1);
+        for (long i = m; i < hi; ++i) val.push_back(i);
+        re_wait(2);
+        if (g_re.on) logev('E', id, lo, hi);
+        if (g_fs.armed.load(std::memory_order_relaxed) && hi == g_fs.mid && tid() == g_fs.main_tid) g_fs.leaf_done = 1;
+    }
     template <class Range> void operator()(const Range& r, tbb::pre_scan_tag) {
         logev('P', id, r.begin(), r.end());
         perturb(r.begin());
-        for (long i = r.begin(); i < r.end(); ++i) val.push_back(i);
+        work(r.begin(), r.end());
     }
     template <class Range> void operator()(const Range& r, tbb::final_scan_tag) {
         logev('F', id, r.begin(), r.end(), (long)val.size() * 2 + (is_prefix(val, r.begin()) ? 0 : 1));
         perturb(r.begin() + 1000003);
-        for (long i = r.begin(); i < r.end(); ++i) val.push_back(i);
+        work(r.begin(), r.end());
     }
     void reverse_join(SBody& a) {
         logev('J', id, a.id);
@@ -223,19 +341,50 @@ struct SBody {
 // scan <part: simple|auto> <n> <grain> <threads> <seed> <delay>
 static void do_scan(std::istringstream& in) {
     std::string part; long n, grain; int threads;
-    if (!(in >> part >> n >> grain >> threads >> g_seed >> g_delay) || grain < 1 || threads < 1 || n < 0) { std::puts("bad-op"); return; }
+    if (!(in >> part >> n >> grain >> threads >> g_seed >> g_delay) || grain < 1 || threads < 1 || n < 0 || !set_reenter(in)) { std::puts("bad-op"); return; }
     reset_log(); g_log_div = true;
     SBody body;
     bool ok = true;
-    in_arena(threads, [&] {
+    in_arena(threads, [&] { with_reentry([&] {
         LRange r(0, n, grain);
         if (part == "simple") tbb::parallel_scan(r, body, tbb::simple_partitioner());
         else if (part == "auto") tbb::parallel_scan(r, body, tbb::auto_partitioner());
         else ok = false;
-    });
+    }); });
     g_log_div = false;
+    g_re = Reenter();
     if (!ok) { std::puts("bad-op"); return; }
     std::printf("value=%s", runs_of(body.val).c_str());
+    print_log();
+}
+
+// fsteal <n> <grain> <timeout_ms>: parallel_scan(simple_partitioner) over [0,n) on a 2-slot arena whose only worker is parked
+// until the main thread has completed the left half [0,n/2) (and stored the root sum_node's m_left_sum); the worker
+// then really steals the root's right child [n/2,n).  forced=1 iff the right child started while the main thread was
+// held in the hook (otherwise the run is an ordinary 2-thread run).
+static void do_fsteal(std::istringstream& in) {
+    long n, grain, tmo;
+    if (!(in >> n >> grain >> tmo) || grain < 1 || n < 2 || tmo < 1 || !(grain < n)) { std::puts("bad-op"); return; }
+    reset_log(); g_log_div = true; g_seed = 0; g_delay = 0; g_re = Reenter();
+    SBody body;
+    {
+        tbb::global_control gc(tbb::global_control::max_allowed_parallelism, 2);
+        tbb::task_arena arena(2);
+        g_fs.leaf_done = 0; g_fs.go = 0; g_fs.right_started = 0; g_fs.blocker_running = 0; g_fs.fired = 0; g_fs.timed_out = 0;
+        g_fs.mid = n / 2; g_fs.hi = n; g_fs.timeout_ms = tmo;
+        arena.enqueue([] { g_fs.blocker_running = 1; spin_until([] { return g_fs.go.load() != 0; }, 20000); });
+        bool parked = spin_until([] { return g_fs.blocker_running.load() != 0; }, 2000);
+        arena.execute([&] {
+            g_fs.main_tid = tid();
+            if (parked) g_fs.armed = 1;
+            LRange r(0, n, grain);
+            tbb::parallel_scan(r, body, tbb::simple_partitioner());
+            g_fs.armed = 0;
+        });
+        g_fs.go = 1;
+    }
+    g_log_div = false;
+    std::printf("value=%s forced=%d", runs_of(body.val).c_str(), (g_fs.fired.load() && !g_fs.timed_out.load()) ? 1 : 0);
     print_log();
 }
 
@@ -302,18 +451,43 @@ static void do_sort(std::istringstream& in) {
                 g_calls.load(), g_nonadj.load());
 }
 
+// watchdog: a scenario that does not return (a broken tree can corrupt a body shared by two threads, or lose a task)
+// must not stall the whole check: report it and die, the driver script restarts the harness after the offending line
+static std::atomic<long> g_scenario{0};
+static void watchdog(long limit_s) {
+    long seen = -1;
+    auto since = std::chrono::steady_clock::now();
+    for (;;) {
+        std::this_thread::sleep_for(std::chrono::milliseconds(200));
+        long cur = g_scenario.load();
+        auto now = std::chrono::steady_clock::now();
+        if (cur != seen) { seen = cur; since = now; continue; }
+        if (cur % 2 == 1 && now - since > std::chrono::seconds(limit_s)) {
+            std::fprintf(stderr, "WATCHDOG: scenario %ld did not return within %ld s\n", cur / 2, limit_s);
+            std::fflush(stderr);
+            _exit(86);
+        }
+    }
+}
+
 int main() {
+    long limit_s = 10;
+    if (const char* e = std::getenv("C06_SCENARIO_TIMEOUT")) limit_s = std::atol(e) > 0 ? std::atol(e) : limit_s;
+    std::thread(watchdog, limit_s).detach();
     std::string line;
     while (std::getline(std::cin, line)) {
         std::istringstream in(line);
         std::string op; in >> op;
         if (op.empty()) continue;
+        g_scenario.fetch_add(1);      // odd: a scenario is running
         if (op == "reduce") do_reduce(in);
         else if (op == "det") do_det(in);
         else if (op == "scan") do_scan(in);
+        else if (op == "fsteal") do_fsteal(in);
         else if (op == "sort") do_sort(in);
         else std::puts("bad-op");
         std::fflush(stdout);
+        g_scenario.fetch_add(1);      // even: idle
     }
     return 0;
 }
